@@ -236,7 +236,7 @@ impl Monitor for ExchangeMon {
 // tagged values: all pairwise sums/differences distinct (checked at start-up)
 fn tag_ns(i: usize) -> u64 {
     // sparse ruler-like offsets on top of a base, with odd sub-second parts
-    const T: [u64; 16] = [3, 17, 61, 157, 419, 1031, 2687, 6571, 15803, 37799, 90001, 214003, 508009, 1205041, 2856097, 6765209];
+    const T: [u64; 20] = [3, 17, 61, 157, 419, 1031, 2687, 6571, 15803, 37799, 90001, 214003, 508009, 1205041, 2856097, 6765209, 16061507, 38130001, 90523007, 214907011];
     1_000_000_000 * (40 + 3 * i as u64) + T[i] * 1_013
 }
 fn tag_corr(i: usize) -> i64 {
@@ -245,15 +245,15 @@ fn tag_corr(i: usize) -> i64 {
 }
 
 pub fn check_tags() {
-    let mut vals: Vec<i128> = (0..16).map(|i| (tag_ns(i) as i128) << 32).collect();
+    let mut vals: Vec<i128> = (0..20).map(|i| (tag_ns(i) as i128) << 32).collect();
     for i in 0..8 {
         vals.push(corr_bits(tag_corr(i)));
     }
     // differences of timestamp pairs combined with any two corrections must be unique enough:
     // verify all pairwise differences of timestamps are distinct and no correction equals one
     let mut diffs = std::collections::HashSet::new();
-    for i in 0..16 {
-        for j in 0..16 {
+    for i in 0..20 {
+        for j in 0..20 {
             if i != j && !diffs.insert(vals[i] - vals[j]) {
                 panic!("harness: timestamp tags are not a Golomb-like set");
             }
@@ -372,6 +372,11 @@ pub fn systems(tier: Tier) -> Vec<Built> {
             // one-step in the first foreign domain, two-step (pairs with the parent's Follow_Up) in the others
             alpha = alpha.add(Ev::RawAt(0, hex(&f.sync(seq0, sdo != 0x100, Ts::from_ns(tag_ns(t + 1) as u128), tag_corr(t))), rx.to_string()));
             t += 2;
+        }
+        // the parent's answers to other slaves' requests with the same sequence id: another clock
+        // with the same port number, and another port of a clock that shares seven identity octets
+        for (i, req) in [Pid { clock: [0xee; 8], port: 1 }, Pid { clock: { let mut c = own.clock; c[7] ^= 1; c }, port: 1 }].iter().enumerate() {
+            alpha = alpha.add(Ev::Raw(0, hex(&a.delay_resp(0, Ts::from_ns(tag_ns(16 + i) as u128), tag_corr(16 + i), req)), false));
         }
         let sys = WorldSys {
             property: "C09",
